@@ -610,7 +610,12 @@ def rule_implicit_types(run, F, cfg):
         for k, v in dominating_conditions(f, b, render=f.vexpr_operand).items():
             if k.startswith("discr("):
                 continue   # `?` exits and matches on the option variant
-            conds.add((_short_mask_expr(k), v))
+            ks = _short_mask_expr(k)
+            # validation guards whose other branch is an error return (e.g. `$match-case` without a regex, which
+            # dominates the rest of parse only in builds without full-regex-handling) say nothing about types
+            if not (re.match(r"^\$\w+$", ks) or any(a in ks for a in accs - {mask_var}) or re.search(r"IS_REMOVEPARAM|IS_HOSTNAME_ANCHOR|IS_RIGHT_ANCHOR|FROM_", ks)):
+                continue
+            conds.add((ks, v))
         row = (op, arg, frozenset(conds))
         rows.append(row)
         sites[row] = (b, f.loc(b))
